@@ -39,6 +39,27 @@ def table() -> dict[str, Prop]:
              assumptions=["exceptions considered: explicit raise statements and raising exits of other Ruler methods "
                           "(a user-supplied iterable that raises while being iterated is not modelled)"],
              not_decided="the 'obvious set semantics' of the reported set after a partially applied failing call"))
+    from .rules import eff_rules as EF
+    reg(Prop("C12", "parse/render-reachable code writes no module, class or instance state other than per-call objects (effect "
+             "classification by the type of the object written); no mutable default / class-level mutable; preset objects never "
+             "reach an instance uncopied and configuration objects are built per instance; no ambient inputs",
+             [EF.rule_eff, EF.rule_alias, EF.rule_ambient],
+             assumptions=["type facts come from the repository's annotations (mypy --strict clean upstream)"],
+             not_decided="nothing further of this property is declined: together the rules are the non-interference argument, modulo "
+                         "the stated assumptions (pure third-party code, the `re` module's internal cache)"))
+    reg(Prop("C13", "two calls on one instance share nothing they write except the lazily compiled chain cache (EFF), and that "
+             "cache is published only when complete and never mutated afterwards; callers of getRules only read (PUB)",
+             [EF.rule_eff, RR.rule_pub],
+             assumptions=["a single attribute store / load is atomic in CPython"],
+             not_decided="the interleaving semantics itself (decided is: no shared write exists that an interleaving could expose)"))
+    reg(Prop("C14", "parse/render write per-call objects only, so unwinding from any callback has nothing to undo (EFF); every "
+             "@contextmanager runs its post-yield code on the exceptional edge too (CTXMGR)",
+             [EF.rule_eff, RR.rule_ctxmgr],
+             not_decided="equality of results before and after the failed call (follows from the absence of writes; not separately shown)"))
+    reg(Prop("C15", "the render phase's only write to a stream token is the image alt attribute, recomputed from the token's own "
+             "children (idempotent); the fence renderer's scratch token owns a copy of the attrs (RWRITE)",
+             [EF.rule_rwrite],
+             not_decided="as_dict / from_dict / SyntaxTreeNode round trips (value-level equalities over runtime data)"))
     return props
 
 
@@ -50,6 +71,13 @@ NOT_APPLICABLE["C06"] = ("a metamorphic relation between the parses of two diffe
                          "frames) are claimed under C07 and C17 instead")
 
 TECHNIQUE = {
+    "C12": "write-effect classification by inferred object type over the API-reachable call graph; alias/taint check of preset "
+           "objects; import allow-list",
+    "C13": "write-effect classification (no shared writes) plus a CFG reachability check that nothing mutates the chain cache "
+           "after its publication",
+    "C14": "write-effect classification plus CFG comparison of the normal and the exceptional successor sets of every yield in a "
+           "@contextmanager",
+    "C15": "effect analysis of the render phase restricted to Token-typed receivers; freshness (copy) check of scratch tokens",
     "C11": "typestate analysis over per-method CFGs with exceptional edges and interprocedural method summaries; "
            "who-may-write effect query; truth-table simulation of the chain-compilation loop",
 }
